@@ -33,16 +33,23 @@ func Evolve(s *Schema, r *prng.Rand) *Evolved {
 		return nil
 	}
 	g := &gen{r: r, nm: nm, s: nw, cfg: GenConfig{MaxDefs: 1, MaxFields: 3, MaxDepth: 1}}
+	// gl draws types for messages of the imported file, which can only name its own definitions
+	gl := &gen{r: r, nm: nm, s: nw, cfg: GenConfig{MaxDefs: 1, MaxFields: 3, MaxDepth: 1}}
 	for _, d := range nw.Defs {
-		switch d.Kind {
-		case KEnum:
-			g.enums = append(g.enums, d.Name)
-		case KStruct:
-			g.structs = append(g.structs, d.Name)
-		case KMessage:
-			g.messages = append(g.messages, d.Name)
-		case KUnion:
-			g.unions = append(g.unions, d.Name)
+		for _, x := range []*gen{g, gl} {
+			if x == gl && !d.Imported {
+				continue
+			}
+			switch d.Kind {
+			case KEnum:
+				x.enums = append(x.enums, d.Name)
+			case KStruct:
+				x.structs = append(x.structs, d.Name)
+			case KMessage:
+				x.messages = append(x.messages, d.Name)
+			case KUnion:
+				x.unions = append(x.unions, d.Name)
+			}
 		}
 	}
 	for _, m := range msgs {
@@ -77,7 +84,11 @@ func Evolve(s *Schema, r *prng.Rand) *Evolved {
 				step = r.Range(1, 255-max)
 			}
 			max += step
-			f := Field{Name: nm.fresh(false), Index: uint8(max), Type: g.fieldType(0, KMessage, m.Name)}
+			tg := g
+			if m.Imported {
+				tg = gl
+			}
+			f := Field{Name: nm.fresh(false), Index: uint8(max), Type: tg.fieldType(0, KMessage, m.Name)}
 			m.Fields = append(m.Fields, f)
 			changed = true
 		}
@@ -100,6 +111,39 @@ func Evolve(s *Schema, r *prng.Rand) *Evolved {
 			}
 		}
 	}
+	// an evolved message of the imported file is also wrapped by structs of that file, which
+	// the importing file then uses with data following
+	var ltop string
+	for _, n := range ev.Changed {
+		for _, d := range nw.Defs {
+			if d.Name == n && d.Kind == KMessage && d.Imported {
+				ltop = n
+			}
+		}
+	}
+	if ltop != "" {
+		m := N(ltop)
+		// (no maps whose values are imported records: generated code for those does not
+		// compile in separate mode, which would exclude the whole program)
+		wrap, wrapA := nm.fresh(true), nm.fresh(true)
+		user := []string{nm.fresh(true), nm.fresh(true), nm.fresh(true), nm.fresh(true)}
+		f := []string{nm.fresh(false), nm.fresh(false), nm.fresh(false)}
+		mk := func() []*Def {
+			imp := func(d *Def) *Def { d.Imported = true; return d }
+			return []*Def{
+				imp(St(wrap, F(f[0], m), F(f[1], P("byte")))),
+				imp(St(wrapA, F(f[0], A(m)))),
+				St(user[0], F(f[0], N(wrap)), F(f[1], P("uint32"))),
+				St(user[1], F(f[0], A(N(wrap))), F(f[1], N(wrapA)), F(f[2], P("string"))),
+				Msg(user[2], MF(1, f[0], N(wrapA)), MF(2, f[1], P("uint32"))),
+				St(user[3], F(f[0], N(wrapA)), F(f[1], N(wrap)), F(f[2], P("int64"))),
+			}
+		}
+		old.Defs = append(old.Defs, mk()...)
+		nw.Defs = append(nw.Defs, mk()...)
+		old.index()
+		nw.index()
+	}
 	if top != "" {
 		m := N(top)
 		sent := func() Field { return F(nm.fresh(false), P("uint32")) }
@@ -110,11 +154,16 @@ func Evolve(s *Schema, r *prng.Rand) *Evolved {
 		names := []string{nm.fresh(true), nm.fresh(true), nm.fresh(true), nm.fresh(true), nm.fresh(true), nm.fresh(true), nm.fresh(true), nm.fresh(true), nm.fresh(true), nm.fresh(true)}
 		fn := []string{nm.fresh(false), nm.fresh(false), nm.fresh(false), nm.fresh(false)}
 		sn := []Field{sent(), sent(), sent(), sent(), sent(), sent()}
+		mapOf := func(t Type) Type { return M("string", t) }
+		if td := nw.Lookup(top); td != nil && td.Imported {
+			// maps whose values are imported records do not compile in separate mode
+			mapOf = func(t Type) Type { return A(A(t)) }
+		}
 		mkctx := func(inner func() *Def) []*Def {
 			return []*Def{
 				St(names[0], F(fn[0], m), sn[0]),
 				St(names[1], F(fn[1], A(m)), sn[1]),
-				St(names[2], F(fn[2], M("string", m)), sn[2]),
+				St(names[2], F(fn[2], mapOf(m)), sn[2]),
 				Msg(names[3], MF(1, fn[3], m), Field{Name: sn[3].Name, Type: sn[3].Type, Index: 2}),
 				Un(names[4], Br(1, inner())),
 				St(names[6], F(fn[0], N(names[4])), sn[4]),
@@ -136,8 +185,19 @@ func Evolve(s *Schema, r *prng.Rand) *Evolved {
 		old.Defs = append(old.Defs, mkctx(innerFields(old))...)
 		nw.Defs = append(nw.Defs, mkctx(innerFields(nw))...)
 		ev.Changed = append(ev.Changed, names[5])
-		old.index()
-		nw.index()
+	}
+	// flag enums stay last (see Generate)
+	for _, s := range []*Schema{old, nw} {
+		var front, back []*Def
+		for _, d := range s.Defs {
+			if d.Kind == KEnum && d.Flags {
+				back = append(back, d)
+			} else {
+				front = append(front, d)
+			}
+		}
+		s.Defs = append(front, back...)
+		s.index()
 	}
 	return ev
 }
